@@ -45,6 +45,21 @@ fn check(prop: &str, tag: &str, issue: &IssueCase, token: &str, pres: &Presentat
     if let (Judgement::Pass, Some(true), false) = (&verdict, expect_accept, obs.is_ok()) {
         verdict = Judgement::Fail("authentic-rejected".into(), format!("a presentation with the matching key/footer/assertion was rejected: {}", obs.short()));
     }
+    // a rejection must be repeatable: the same presentation made again straight away (a failed attempt may
+    // have left state behind - a half-updated key slot, a cached comparison) must be rejected again
+    let mut tag = tag.to_string();
+    if matches!(verdict, Judgement::Pass) && obs.is_err() && expect_accept != Some(true) {
+        let (obs2, calls2) = pres.present();
+        acc.executions += 1;
+        acc.impl_calls += 1;
+        if !obs2.is_err() {
+            if let Judgement::Fail(kind, why) = judge(issue, token, pres, &obs2, calls2, false) {
+                verdict = Judgement::Fail(kind, format!("rejected at first, but the same presentation repeated immediately afterwards: {}", why));
+                tag = format!("{}:retried", tag);
+            }
+        }
+    }
+    let tag = tag.as_str();
     if let Judgement::Fail(kind, why) = verdict {
         let key = match &obs {
             Out::Panic(loc) => format!("{}|{}|{}|panic|{}", prop, pres.proto.name(), pres.layer.name(), crate::adapter::panic_site(loc)),
@@ -222,7 +237,9 @@ pub fn replay(prop: &'static str, case: &serde_json::Value) -> i32 {
     let mut keys = Vec::new();
     for _ in 0..2 {
         let mut acc = Acc::default();
-        check(prop, case["tag"].as_str().unwrap_or("replay"), &ic, &issued, &pres, expect, &mut acc);
+        // as in the run: the verbatim control precedes the presentation under test
+        let _ = Presentation::of(&ic, &issued).present();
+        check(prop, case["tag"].as_str().unwrap_or("replay").trim_end_matches(":retried"), &ic, &issued, &pres, expect, &mut acc);
         keys.push(acc.violations.iter().map(|v| (v.key.clone(), v.what.clone())).collect::<Vec<_>>());
     }
     if keys[0] != keys[1] {
